@@ -38,7 +38,7 @@ func (h *UserDataHeader) ReadFrom(r io.Reader) (n int64, err error) {
 			return
 		}
 		data := make([]byte, size)
-		if _, err = buf.Read(data); size > 0 && err != nil {
+		if _, err = io.ReadFull(buf, data); err != nil {
 			return
 		}
 		header[id] = data
